@@ -18,7 +18,8 @@
     find_servercert (o_certfile); and the oracles of the session model.  The claim is: proof of the state and buffer
     logic, partial for OpenSSL. *)
 From Qv Require Import Common.Bytes Gen.GenSession Gen.GenTls Model.NetRead Model.Session Spec.SessionSpec
-  Proofs.SessionProofs Model.TlsSwitch Spec.TlsSpec Proofs.TlsSwitchProofs.
+  Proofs.SessionProofs Model.TlsSwitch Spec.TlsSpec Proofs.TlsSwitchProofs
+  Gen.GenServerCert Model.ServerCert Spec.ServerCertSpec Proofs.ServerCertProofs.
 
 (** (1) A round switches to TLS only if it read a STARTTLS line behind which the clear-text reader holds NOTHING:
     lineinn is empty, nothing of the current segment is unread, no further clear-text segment was sent before the
@@ -133,6 +134,46 @@ Theorem C17_starttls_row :
       /\ EHLO_OFFER_NEEDS_NO_TLS = true /\ EHLO_OFFER_NEEDS_CERT = true).
 Proof. exact (conj tls_table_ok guards_ok). Qed.
 Print Assumptions C17_starttls_row.
+
+(** ---------- find_servercert(): the function behind the announcement (oracle o_certfile above) ----------
+    Literal model of the name building in the two static 76-byte arrays (Model/ServerCert.v), faccessat() as oracle [ex].
+    For the code in the tree (suffix written behind the constant prefix; fixes/C17-servercert-name.diff): whatever the
+    arrays hold from earlier calls ([Inv]: prefixes intact, key array NUL-terminated), for every address without NUL of at
+    most SC_IPMAX = 45 octets, every port of at most 5 octets and every oracle, no access leaves the arrays, the result is
+    0 iff one of servercert.pem.<ip>:<port>, servercert.pem.<ip>, servercert.pem exists, and certfilename then holds
+    "control/" + the most specific existing one. *)
+Theorem C17_servercert_call : forall ex ip port s,
+  no_nul ip -> length ip <= SC_IPMAX -> port_ok port -> Inv s ->
+  exists probes s', find_servercert ex ip port s = Ok (servercert_spec ex ip port, probes, s')
+    /\ Inv s'
+    /\ (forall sfx, chosen ex ip port = Some sfx -> cstr_at (cert s') 0 = Ok (SC_CERT ++ sfx)).
+Proof.
+  intros ex ip port s Hn Hl Hp HI. unfold find_servercert.
+  replace SC_OLDLEN_CONST with true by (symmetry; exact (proj2 (proj2 (proj2 (proj2 (proj2 (proj2 (proj2 consts)))))))).
+  destruct (find_servercert_fixed ex ip Hn Hl port s HI Hp) as (probes & s' & H1 & H2 & H3 & _).
+  exists probes, s'. auto.
+Qed.
+Print Assumptions C17_servercert_call.
+
+(** any number of calls (one per EHLO), the files may come and go in between: every call is judged ok by the checker
+    that is also applied to the observations of the C function *)
+Theorem C17_servercert_calls : forall ip port exs,
+  no_nul ip -> length ip <= SC_IPMAX -> port_ok port ->
+  exists rs, calls exs ip port sc_init = Ok rs
+    /\ spec_ok_servercert exs ip port (map (fun r => let '(rc, _, cn, _) := r in (rc, cn)) rs) = true.
+Proof.
+  intros ip port exs Hn Hl Hp. unfold calls.
+  replace SC_OLDLEN_CONST with true by (symmetry; exact (proj2 (proj2 (proj2 (proj2 (proj2 (proj2 (proj2 consts)))))))).
+  exact (calls_fixed ip port Hn Hl Hp exs sc_init Inv_init).
+Qed.
+Print Assumptions C17_servercert_calls.
+
+(** F-C17-1, the code as found (suffix behind strlen(certfilename)): with a certificate named
+    servercert.pem.<39-octet address>:25 the second call stores outside certfilename[76] *)
+Theorem C17_servercert_orig_refuted :
+  calls_gen false [ex_ipport; ex_ipport] long_ip (Some [50;53]%N) sc_init = Crash 1%N.
+Proof. exact orig_second_call_crashes. Qed.
+Print Assumptions C17_servercert_orig_refuted.
 
 (** non-vacuity: MAIL and RCPT in clear text, RSET, STARTTLS, handshake, then inside TLS a MAIL without EHLO (refused),
     EHLO, a transaction: one hand-off, and its envelope holds the in-TLS sender only.  A second script with "RSET"
